@@ -51,7 +51,7 @@ theorem mkdir_ok {fs fs' : Fs} {cs} (h : mkdir fs cs = .ok fs') :
 
 theorem fileCreate_ok {fs fs' : Fs} {cs c} (h : fileCreate fs cs c = .ok fs') :
     ∃ q m, resolve fs true cs = .ok q ∧ fs' = fs.set q (.file c m) ∧
-      ((fs.get q = none ∧ m = 0o644) ∨ ∃ c0, fs.get q = some (.file c0 m)) := by
+      ((fs.get q = none ∧ m = fs.masked 0o666) ∨ ∃ c0, fs.get q = some (.file c0 m)) := by
   unfold fileCreate at h
   split at h
   · cases h
@@ -399,7 +399,7 @@ theorem isDir_dir {fs : Fs} {cs m} (hr : resolve fs true cs = .ok cs) (hv : fs.g
 
 theorem fileCreate_vacant {fs : Fs} {cs} (c : Bytes) (hr : resolve fs true cs = .ok cs) (hv : fs.get cs = none)
     (hs : nameTooLong cs = false) :
-    fileCreate fs cs c = .ok (fs.set cs (.file c 0o644)) := by
+    fileCreate fs cs c = .ok (fs.set cs (.file c (fs.masked 0o666))) := by
   unfold fileCreate; rw [hr]; simp only [hv, hs, Bool.false_eq_true, if_false]
 
 theorem setPerm_file {fs : Fs} {cs c m} (p : Nat) (hr : resolve fs true cs = .ok cs) (hv : fs.get cs = some (.file c m)) :
